@@ -152,6 +152,22 @@ func raceTrafficT(cc grpc.ClientConnInterface, nUnary, nStreams int, wg *sync.Wa
 	}
 }
 
+// raceErr: the injected transport failure of a run: plain, io.EOF, or errors WRAPPING io.EOF / context.Canceled /
+// context.DeadlineExceeded (code that compares with == instead of errors.Is takes another path for those)
+func raceErr(seed int64) error {
+	switch seed % 5 {
+	case 1:
+		return io.EOF
+	case 2:
+		return fmt.Errorf("transport: %w", io.EOF)
+	case 3:
+		return fmt.Errorf("transport: %w", context.Canceled)
+	case 4:
+		return fmt.Errorf("transport: %w", context.DeadlineExceeded)
+	}
+	return errInjected
+}
+
 type raceWorkload struct {
 	name string
 	run  func(seed int64)
@@ -178,8 +194,8 @@ func wlMux(stop bool) func(int64) {
 				// the connection dies in both directions at once: a stream's Write fails while the
 				// multiplexer's read loop fails on the same connection (the write-error path of streams
 				// and unary calls asks the multiplexer for the error that broke the connection)
-				l.C.FailWrites(errInjected)
-				l.C.FailRead(errInjected)
+				l.C.FailWrites(raceErr(seed + 2))
+				l.C.FailRead(raceErr(seed))
 			}()
 		}
 		wg.Wait()
@@ -229,7 +245,11 @@ func raceBurst(cc grpc.ClientConnInterface, n int, timeout time.Duration, wg *sy
 			ctx, cancel := context.WithTimeout(context.Background(), timeout)
 			defer cancel()
 			var out wrapperspb.BytesValue
-			if err := cc.Invoke(ctx, "/verif.Echo/Unary", bv([]byte(fmt.Sprintf("b-%d", i))), &out); err == nil {
+			payload := []byte(fmt.Sprintf("b-%d", i))
+			if i%7 == 3 {
+				payload = nil // an empty message
+			}
+			if err := cc.Invoke(ctx, "/verif.Echo/Unary", bv(payload), &out); err == nil {
 				raceOkUnary.Add(1)
 			} else {
 				raceErrs.Add(1)
@@ -329,8 +349,8 @@ func wlProxy(seed int64) {
 		lmu.Lock()
 		l1, l3 := links[3], links[5] // the links of c0 and c1 (two slow peers, then s0 c0 s1 c1 ...)
 		lmu.Unlock()
-		l1.C.FailRead(errInjected)
-		l3.S.FailRead(errInjected)
+		l1.C.FailRead(raceErr(seed))
+		l3.S.FailRead(raceErr(seed + 1))
 		p.VerifProxyClients()
 	}()
 
@@ -367,7 +387,7 @@ func wlProxy(seed int64) {
 		bwg.Wait()
 		raceBurst(cc, 6, 300*time.Millisecond, &bwg)
 		bwg.Wait()
-		lst.C.FailWrites(errInjected) // and now its writer fails: the proxy forgets the peer
+		lst.C.FailWrites(raceErr(seed + 3)) // and now its writer fails: the proxy forgets the peer
 		raceBurst(cc, 4, 50*time.Millisecond, &bwg)
 		bwg.Wait()
 		p.VerifProxyClients()
@@ -398,6 +418,8 @@ func wlProxy(seed int64) {
 		for i := 0; i < 6; i++ {
 			id := uint64(7000 + i*10)
 			lraw.S.Deliver(&Rpc{Id: id})
+			lraw.S.Deliver(&Rpc{})                                                                                    // the all-default envelope
+			lraw.S.Deliver(&Rpc{Id: id + 6, Header: hdr("/verif.Echo/Unary", "craw", "s0"), Body: &goatorepo.Body{}}) // a body of zero bytes
 			lraw.S.Deliver(&Rpc{Id: id + 1, Header: hdr("/verif.Echo/Unary", "somebody-else", "s0"), Body: &goatorepo.Body{Data: body}})
 			h := hdr("/verif.Echo/Unary", "craw", "not-s1")
 			h.ProxyNext = []string{"s1"} // routed to s1, which ignores it (not its name)
@@ -463,7 +485,8 @@ func wlDemux(seed int64) {
 	time.Sleep(5 * time.Millisecond)
 	// the shared connection stops accepting writes while replies are still produced: the per-key
 	// writer goroutines end on the error, the servers behind them keep writing into their channels
-	shared.FailWrites(errInjected)
+	shared.FailWrites(raceErr(seed))
+	shared.Deliver(&Rpc{}) // the all-default envelope
 	for k := 0; k < 6; k++ {
 		shared.Deliver(&Rpc{Id: uint64(9000 + k), Header: hdr("/verif.Echo/Unary", fmt.Sprintf("k%d", k), "srv"), Body: &goatorepo.Body{Data: body}})
 		shared.Deliver(&Rpc{Id: uint64(9100 + k), Header: hdr("/verif.Echo/Unary", fmt.Sprintf("late%d", k), "srv"), Body: &goatorepo.Body{Data: body}})
@@ -778,6 +801,9 @@ func wlOpts(seed int64) {
 			for i := 0; i < 4; i++ {
 				id := uint64(50000 + i*20)
 				l.S.Deliver(&Rpc{Id: id})
+				l.S.Deliver(&Rpc{})
+				l.C.Deliver(&Rpc{})
+				l.S.Deliver(&Rpc{Id: id + 12, Header: hdr("/verif.Echo/Unary", "src", "dst"), Body: &goatorepo.Body{}}) // a body of zero bytes
 				l.S.Deliver(&Rpc{Id: id + 1, Header: hdr("nomethod", "src", "dst"), Body: &goatorepo.Body{Data: body}})
 				l.S.Deliver(&Rpc{Id: id + 2, Header: hdr("/verif.Echo/Unary", "src", "elsewhere"), Body: &goatorepo.Body{Data: body}})
 				l.S.Deliver(&Rpc{Id: id + 3, Header: hdr("/nope.Svc/M", "src", "dst"), Body: &goatorepo.Body{Data: body}})
